@@ -184,11 +184,12 @@ def encoded():
 META = dict(
     stubs=[
         "pdb2pqr.io.int/float/str -> symx shims; io.write_cube recompiled at check time with f-strings and str.join routed through the layout-string model",
-        "DX values are opaque numeric tokens standing for arbitrary reals (float() returns the value, '< 13.5E' formatting returns a token carrying it): the decimal conversion itself is trusted to CPython",
+        "DX values are opaque numeric tokens standing for arbitrary reals (float() returns the value, '< 13.5E' formatting returns a token carrying it, preceded by a sign-slot blank iff the value is non-negative and followed by a padding blank iff the exponent has two digits - optional-blank cells, validated against CPython each run): the decimal conversion itself is trusted to CPython",
     ],
     bounds=[
         "value count n: quick {0,1,5,6,7,12,13}; thorough 0..19, 23, 24, 25, 36, 60, 64; values per DX line 1-3 with a ragged last line; all values symbolic reals",
         "header: grid counts symbolic in [1,9999] (independent of n), or two origin components symbolic in (-9999,9999), or two off-diagonal delta entries symbolic in (-99,99); 0-2 atoms; with and without comment lines",
+        "two conversions (5 then 7 values; thorough five pairs) in one process; read_pqr -> write_cube over every sequence of 3 (thorough 4) PQR line kinds from {ATOM, HETATM, TER, END, REMARK} between a leading ATOM and a trailing HETATM",
     ],
     outside=[
         "printed precision of '13.5E' / '11.6f' beyond the stated tolerances (CPython's formatter)",
@@ -200,7 +201,7 @@ META = dict(
 )
 
 MANIFEST = dict(
-    text="For C18: the real io.read_dx then io.write_cube on DX text whose values are arbitrary symbolic reals (numeric tokens), whose grid counts, origin components and off-diagonal delta entries are symbolic numbers (layout strings), for every value count in the stated list with 1-3 values per DX line: the cube text, parsed back by an independent tokeniser, has the atom count and origin, the signed counts and the step vectors of the DX delta lines in order, one line per atom, exactly n values equal to the DX values in the same order, at most six per line.",
+    text="For C18: the real io.read_dx then io.write_cube on DX text whose values are arbitrary symbolic reals (numeric tokens), whose grid counts, origin components and off-diagonal delta entries are symbolic numbers (layout strings), for every value count in the stated list with 1-3 values per DX line: the cube text, parsed back by an independent tokeniser, has the atom count and origin, the signed counts and the step vectors of the DX delta lines in order, one line per atom, exactly n values equal to the DX values in the same order (whatever their magnitude: the separation of the fields does not rely on padding), at most six per line; a second conversion in the same process is unaffected by the first; every ATOM/HETATM line of the PQR file is listed once, in order.",
     note="Trusted: z3, symx layout strings/numeric tokens, AST rewrite of write_cube's f-strings and join. Value counts are an explicit list (loops over a symbolic count are not unrolled); the decimal rendering of each value is CPython's.",
     technique="symbolic execution of real code on layout strings and numeric tokens (symx) + SMT verdict per path",
     design="DESIGN.md section 3 C18",
